@@ -141,6 +141,11 @@ fn test_span_history(h: &SpanHistory, cx: &mut Cx) -> CaseResult {
                 match s.checked_mul(*k) {
                     Ok(ns) => {
                         ensure!(!overflow, "span-mul-accepts-overflow", "{ctx}: checked_mul({k}) = Ok({ns:?}) but a unit exceeds its limit (model {m:?})");
+                        // operator forms (documented to panic on overflow: only when in range)
+                        let viaop = s * *k;
+                        ensure!(getters(&viaop) == getters(&ns), "span-mul-operator", "{ctx}: span * {k} differs from checked_mul");
+                        let viaop2 = *k * s;
+                        ensure!(getters(&viaop2) == getters(&ns), "span-mul-operator", "{ctx}: {k} * span differs from checked_mul");
                         m = nm;
                         s = ns;
                     }
